@@ -16,7 +16,7 @@
     been dropped.
 
   This file is the labelled transition system of that arrangement, built from the very functions
-  `Conn.handle` is made of (`contBytes`, `readPhase`, `finishBytes`, `Body.drain`), with `Lts.Seq`
+  `Conn.handle` is made of (`contBytes`, `handlerReads`, `finishBytes`, `Body.drain`), with `Lts.Seq`
   embedded for the writer side.  Every handler step is atomic at the granularity the two chains
   impose: bytes are submitted in arbitrary pieces (`write i k`), so responses of different
   handlers interleave in time in every possible way.
@@ -38,7 +38,7 @@ def contBytes (h : Head) (fr : Framing) (a : Action) : Bytes :=
   else []
 
 /-- the handler's reads: bytes obtained, how the last read ended, new reader state, new stream. -/
-def readPhase (a : Action) (body : Body) (bs : Bytes) (fin : EndState) : Bytes × ReadEnd × Body × Bytes :=
+def handlerReads (a : Action) (body : Body) (bs : Bytes) (fin : EndState) : Bytes × ReadEnd × Body × Bytes :=
   let zr : Option (Body × Bytes) :=
     if a.asReaderCalls > 0 && a.zeroRead then zeroReadEffect body bs fin else some (body, bs)
   match zr with
@@ -218,7 +218,7 @@ def step (s : State) : Label → Option State
     (match s.reqs[i]? with
      | some r =>
        if r.stage == .cont && r.toEmit.isEmpty then
-         let (got, rend, body1, bs1) := readPhase r.act r.body s.rest s.fin
+         let (got, rend, body1, bs1) := handlerReads r.act r.body s.rest s.fin
          let r' := { r with got := got, readEnd := rend, body := body1,
                             stage := if rend == .pending then Stage.stuck else Stage.readDone }
          some { setReq s i r' with rest := bs1 }
